@@ -460,12 +460,19 @@ func (packet *PacketHandler) readDataLength() error {
 	return nil
 }
 
+// ErrInvalidPacketLength is returned for a packet with length field less than the size of the field itself
+var ErrInvalidPacketLength = errors.New("invalid length of packet")
+
 // readData part of packet
 func (packet *PacketHandler) readData(readLength bool) error {
 	if readLength {
 		if err := packet.readDataLength(); err != nil {
 			return err
 		}
+	}
+	// length field counts itself, so the valid data length can't be negative
+	if packet.dataLength < 0 {
+		return ErrInvalidPacketLength
 	}
 	packet.descriptionBuf.Grow(packet.dataLength)
 	packet.logger.Debugln("Read data")
